@@ -362,3 +362,54 @@ func ruleCodecPairs(c *Ctx) {
 	c.count("codec_pairs", n)
 	_ = sort.Strings
 }
+
+// ruleSearchText (R15, findings F15): the client's id pattern and tag keys reach positions where
+// SQL interprets them — the LIKE pattern (where '_' and '%' are wildcards besides the documented
+// '*') and, on SQLite, the JSON path built from a tag key.
+func ruleSearchText(dialectOnly bool) ruleFn {
+	return func(c *Ctx) {
+		m := c.sqlModel()
+		if m.Err != nil {
+			c.und("model", 0, m.Err.Error())
+			return
+		}
+		n := 0
+		for _, b := range m.Backends {
+			for _, k := range []string{"SearchPromises", "SearchSchedules"} {
+				a := b.Arms[k]
+				if a == nil {
+					continue
+				}
+				for _, r := range b.resolveArm(c.P, a) {
+					if r.Problem != "" || r.Facts == nil {
+						continue
+					}
+					n++
+					likeRaw := false
+					for _, w := range r.Facts.Where {
+						if strings.Contains(w, " LIKE :like(") {
+							likeRaw = true
+						}
+					}
+					hasEscape := strings.Contains(strings.ToUpper(r.Text), "ESCAPE")
+					if dialectOnly {
+						// C17: LIKE is ASCII-case-insensitive in SQLite and case-sensitive in Postgres
+						c.check(!likeRaw, "dialect/like-case/"+k+"/"+b.Name, r.Pos, "no dialect-sensitive pattern operator", "the id filter uses LIKE, whose case sensitivity differs between the engines (SQLite folds ASCII case, Postgres does not): the same search returns different rows on the two backends")
+						continue
+					}
+					c.check(!likeRaw || hasEscape, "like-pattern/"+b.Name+"/"+k, r.Pos, "LIKE operand is escaped", "the id pattern reaches LIKE with only '*' translated to '%': '_' and '%' inside the client's pattern are wildcards too (and on SQLite the match ignores ASCII case), so a search returns promises that do not match the query")
+					if b.Name == "sqlite" {
+						jsonPath := false
+						for _, arg := range r.E.Args {
+							if strings.Contains(arg, `"$."+key`) {
+								jsonPath = true
+							}
+						}
+						c.check(!jsonPath, "json-path/"+b.Name+"/"+k, r.Pos, "tag keys are not spliced into a JSON path", "the tag key is concatenated into a JSON path (\"$.\"+key): a key containing '.', '[' or '\"' addresses a different member, so promises carrying the tag are not returned")
+					}
+				}
+			}
+		}
+		c.floor("search statements inspected", n, 4)
+	}
+}
